@@ -8,13 +8,17 @@ Import ListNotations.
 (* the operation leaves the actor's down streams, queue, group, liveness alone *)
 Definition keeps (m : nat) (w w' : world) : Prop :=
   c_down (w_cl w' m) = c_down (w_cl w m) /\ c_queue (w_cl w' m) = c_queue (w_cl w m) /\
-  c_group (w_cl w' m) = c_group (w_cl w m) /\ c_dead (w_cl w' m) = c_dead (w_cl w m).
+  c_group (w_cl w' m) = c_group (w_cl w m) /\ c_dead (w_cl w' m) = c_dead (w_cl w m) /\
+  c_req (w_cl w' m) = c_req (w_cl w m).
+
+Lemma upd_cl_same : forall h f w, w_cl (upd_cl h f w) h = f (w_cl w h).
+Proof. intros. unfold upd_cl. simpl. rewrite Nat.eqb_refl. reflexivity. Qed.
 
 Lemma keeps_refl : forall m w, keeps m w w.
 Proof. intros. repeat split. Qed.
 
 Lemma keeps_trans : forall m a b c, keeps m a b -> keeps m b c -> keeps m a c.
-Proof. intros m a b c [A1 [A2 [A3 A4]]] [B1 [B2 [B3 B4]]]. repeat split; congruence. Qed.
+Proof. intros m a b c [A1 [A2 [A3 [A4 A5]]]] [B1 [B2 [B3 [B4 B5]]]]. repeat split; congruence. Qed.
 
 Lemma keeps_send : forall m c x w, keeps m w (send c x w).
 Proof. intros. unfold keeps. autorewrite with sub. repeat split. Qed.
@@ -180,8 +184,12 @@ Proof.
       * rewrite X. apply downs_sub_keeps. apply keeps_refl.
     + destruct (leave_group_own m w) as [X|X]; [intro Y; congruence|rewrite X; reflexivity].
   - destruct (c_group (w_cl w m)) as [g|]; cbn [fst] in *; [|apply own_ok_keeps; apply keeps_refl].
-    apply own_ok_keeps. eapply keeps_trans; [|apply keeps_enq_all_notin; apply not_in_others].
-    unfold keeps, upd_cl. simpl. rewrite Nat.eqb_refl. simpl. repeat split.
+    destruct (keeps_enq_all_notin m (others (upd_cl m (set_req req) w) n m) (AReqConns n m 0)
+                (upd_cl m (set_req req) w) (not_in_others _ _ _)) as [A [B [C [D _]]]].
+    split; [|split].
+    + exists []. rewrite app_nil_r, B. rewrite upd_cl_same. reflexivity.
+    + apply downs_sub_same. rewrite A, upd_cl_same. reflexivity.
+    + intros _. rewrite C, upd_cl_same. reflexivity.
   - destruct (get_down id (c_down (w_cl w m))) as [d|] eqn:Eg; [|apply own_ok_keeps; apply keeps_refl].
     destruct (c_group (w_cl w m)) as [g|]; cbn [fst] in *; [|apply own_ok_keeps; apply keeps_refl].
     destruct (get_down_in _ _ _ Eg) as [_ Hid].
@@ -407,9 +415,6 @@ Proof.
         -- apply D. exact Hx.
       * intro Hr. rewrite get_down_replace_other; auto. rewrite N1, R2. simpl. intro X. eapply Hnr; eauto.
 Qed.
-
-Lemma upd_cl_same : forall h f w, w_cl (upd_cl h f w) h = f (w_cl w h).
-Proof. intros. unfold upd_cl. simpl. rewrite Nat.eqb_refl. reflexivity. Qed.
 
 Definition kills (a : action) (g id : nat) : Prop :=
   exists id' up ts r, a = APush g id' up ts r /\ ((id' = id /\ up = None) \/ r = id).
